@@ -13,11 +13,11 @@ CHECKS = {
         text="For each captured instance: every supply kind x month bucket +5 % of monthly need, each retail waste -5 points, feed/biofuel charge +1 % per bucket, common scale x0.5/x3: percent fed must not decrease / not increase / stay equal (1e-5 relative). Exact mathematical consequences of a correct formulation, checked on every enumerated instance rather than one sweep.",
         note=TRUST + "; an infeasible perturbed programme has no value and is counted, not judged"),
     "C14": dict(engine="histories", design_ref="3/C14",
-        technique="sequences(d): every ordered sequence (d<=2 quick, d<=3 thorough, repeats allowed) over a pool of 6 runs differing in every process-global the code touches, each history in one fresh process; differential oracle: bit-for-bit equality with the run alone",
+        technique="sequences(d): every ordered sequence (d<=2 quick, d<=3 thorough, repeats allowed) over a pool of 8 runs differing in every process-global the code touches (two of them the same country with numeric overrides), each history in one fresh process; every subset (size <=2 quick, all thorough) of 5 countries in ONE multi-country call sharing one option dictionary; differential oracle: bit-for-bit equality with the run alone / the single-country call",
         text="Result digest (headline, every monthly series, herd dictionaries) of each run at the end of every history equals the digest of the same run alone in a fresh process, also repeated and under other PYTHONHASHSEED values; caller's option dictionaries unmodified; process-global settings fingerprinted after each run.",
         note=TRUST + "; results are bit-for-bit reproducible on the unchanged tree (measured)"),
     "C15": dict(engine="aggregate", design_ref="3/C15",
-        technique="full product of selection patterns (absent / named / '!'-named per country over a 4-country universe: 81 lists) x 3 fraction tables through the real run_model_no_trade with the per-country step replaced by a stand-in; conformance of the stand-in on real unstubbed runs",
+        technique="full product of selection patterns (absent / named / '!'-named per country over a 4-country universe: 81 lists) x 5 fraction tables (two with countries whose run reports failure) through the real run_model_no_trade with the per-country step replaced by a stand-in; conformance of the stand-in on real unstubbed runs",
         text="Aggregate == sum(pop x min(1,f)) / sum(pop) over exactly the selected rows, within [0,1]; exclusion lists run all other rows, inclusion and mixed lists only the named ones; every selected country once in the results.",
         note=TRUST + "; the stand-in replaces only run_optimizer_for_country"),
     "C17": dict(engine="imports", design_ref="3/C17",
@@ -25,12 +25,12 @@ CHECKS = {
         text="Regenerated processed tables and the combined table are byte-identical to the shipped ones; 164 x 211 cells satisfy completeness/seasonality/fraction/reduction/sign rules; weighted_average_percentages over every vector of length <= 3/4 from 9 values x every quarter-grid weight vector returns the renormalised mean of the valid inputs or the sentinel iff none carries weight.",
         note=TRUST + "; raw data files are the given input"),
     "C01": dict(engine="pipeline", design_ref="3/C01",
-        technique="bounded exhaustive enumeration of configurations (presets x all countries; every single option deviation; thorough: every pair) through the real three-round run; ledger audit of every solved allocation, written from the supplies, on every (round, month)",
+        technique="bounded exhaustive enumeration of configurations (presets x all countries; every single option deviation; thorough: every pair) through the real three-round run, plus the full product of tiny 3-month (thorough: 3- and 5-month) instances on the real Optimizer; ledger audit of every solved allocation, written from the supplies, on every (round, month)",
         text="Every linear programme the model builds inside the enumerated configuration space is audited after its last solve: non-negativity, stored food / crops / meat cumulative balances, monthly SCP and sugar caps, the seaweed growth-and-harvest recurrence with density and area bounds, feed/biofuel totals vs the charged series or ceilings, feed never rising in the feed round. The audit is derived from what physically exists each month, not from the model's own constraint objects, so a missing or too-weak balance shows.",
-        note=TRUST + "; tolerances 1e-5 relative + 1e-6 absolute on cumulative clauses (CBC primal tolerance 1e-7 per value)"),
+        note=TRUST + "; tolerances 1e-5 relative + 1e-6 absolute on cumulative clauses (CBC primal tolerance 1e-7 per value), 1e-4 absolute on the seaweed recurrence"),
     "C02": dict(engine="pipeline", design_ref="3/C02",
-        technique="same enumeration; every LP instance re-formulated independently from the captured inputs and solved with HiGHS, optima compared at 1e-5 relative",
-        text="For each enumerated (country, configuration, round) the reported optimum is compared with the optimum of an independently written formulation (cumulative what-exists-so-far constraints, documented intake caps, charge or ceilings, pinned bands, monotone feed) solved by a different solver. The deciding step is the enumeration of instances; HiGHS is the oracle for one instance.",
+        technique="same enumeration plus the tiny-instance product (mc/tiny.py); for every LP instance the model's own programme is read out of the PuLP object as matrices and solved with HiGHS, and compared (a) with an independently written formulation built from the captured inputs (1e-5 relative: wrong coefficient, missing constraint, wrong pin) and (b) with the value CBC reported (1e-3 relative: CBC stops up to 5.7e-4 short of its own optimum on the unchanged tree)",
+        text="For each enumerated (country, configuration, round) the reported optimum is compared with the optimum of an independently written formulation (cumulative what-exists-so-far constraints, documented intake caps, charge or ceilings, pinned bands, monotone feed) solved by a different solver, and with the optimum of the programme the model itself built. The deciding step is the enumeration of instances; HiGHS is the oracle for one instance.",
         note=TRUST + "; CBC and HiGHS trusted as LP solvers; an instance HiGHS cannot solve numerically is counted, not judged"),
     "C03": dict(engine="pipeline", design_ref="3/C03",
         technique="same enumeration incl. the threshold override T in {0,10,50,100}; relations between the three dependent optimisations of each run, all controller branches",
